@@ -650,6 +650,14 @@ func c17Round3(c *Ctx) {
 	c.Rule("R17o", "the ZIP64 end record is consulted only when the classic end record is saturated, as standard readers do", 1)
 	c.Rule("R17p", "reproducing the original directory does not change the Directory it is asked about", 1)
 
+	c.Rule("R17q", "the directory offset Truncate records does not depend on whether a body writer was given", 1)
+	for _, f := range truncateOffsetIndependent(p) {
+		c.Check(f.OK, "R17q", f.Key, f.Pos, "", f.Detail)
+	}
+	c.Rule("R17r", "the name and extra field kept for a local header are read from the local header itself", 2)
+	for _, f := range localHeaderFromItself(p) {
+		c.Check(f.OK, "R17r", f.Key, f.Pos, "", f.Detail)
+	}
 	// ---- R17n
 	if fn := p.Func("lib/zipslicer.ZipToTarSize"); fn == nil {
 		c.Undecided("R17n", "zipslicer.ZipToTarSize", "-", "function not found")
